@@ -413,6 +413,17 @@ def judge_tree(tree, q):
             return "root %r is not the set of all leaves" % (sorted(tree.root),)
         if not valid_path(tree.get_path(), len(inputs)):
             return "tree.get_path() %r is not a path of %d tensors" % (tree.get_path(), len(inputs))
+        # the costs the tree reports must be the costs of ITS path on the QUERY's sizes (a tree left over
+        # from a query with the same index structure but other sizes reports that query's costs)
+        if len(inputs) >= 2:
+            from vlib import gen as _gen, oracle as _oracle
+            removed = list(tree.sliced_inds)
+            spec = _oracle.spec_costs(list(inputs), output, size_dict, _gen.tree_nested(tree), removed, [])
+            stats = tree.contract_stats()
+            got = (int(stats["flops"]), int(stats["write"]), int(stats["size"]))
+            want = (spec["flops"], spec["write"], spec["size"])
+            if got != want:
+                return "tree reports (flops, write, size) = %r but its path costs %r on the query's sizes" % (got, want)
     except Exception as e:
         return "inspecting the tree raised %r" % (e,)
     return None
